@@ -69,7 +69,7 @@ def canon_log(log, spec):
         if e[0] == "value":
             out.append("(EValue %s %s)" % (Nat(names.index(e[1])), S(e[2])))
         else:
-            i = int(e[1][len("check"):])
+            i = V.check_index(e[1])
             if e[0] == "reset":
                 out.append("(EReset %s)" % Nat(i))
             elif e[0] == "check_row":
